@@ -271,13 +271,13 @@ def gen_system_op(rng, spec):
 
 def gen_project_case(rng):
     return dict(kind='project', spec=dict(n=0, kind='project', mesh=rng.choice(['line', 'quad']), nelems=rng.choice([1, 2, 3, 4]), degree=rng.choice([1, 2]), btype=rng.choice(['std', 'spline', 'discont'])),
-                ops=[dict(op='project', where=rng.choice(['domain', 'boundary', 'left']), ptype='lsqr', fun=rng.choice(['x', 'x2', 'one', 'zero']), atol=rng.choice([0., 0., 1e-10, 1e-6]),
-                          solver=rng.choice(['arnoldi', 'direct']), exact_boundaries=rng.random() < 0.2) for _ in range(rng.choice([1, 2, 3]))], faults={})
+                ops=[dict(op='project', where=rng.choice(['domain', 'boundary', 'left', 'right', 'left', 'right']), ptype='lsqr', fun=rng.choice(['x', 'x2', 'one', 'two', 'zero', 'zero']), atol=rng.choice([0., 0., 1e-10, 1e-6]),
+                          solver=rng.choice(['arnoldi', 'direct']), exact_boundaries=rng.random() < 0.2, chain=rng.random() < 0.7) for _ in range(rng.choice([1, 2, 3, 4]))], faults={})
 
 
 def gen_case(rng, index, tier):
     r = rng.random()
-    if r < 0.05:
+    if r < 0.08:
         case = gen_project_case(rng)
         if rng.random() < 0.5:
             case['faults'] = gen_faults(rng, ncalls_hint=rng.choice([2, 4]))
@@ -829,7 +829,9 @@ def _do_constraints(system, spec, op, constrain, cmask, cvals):
 
 
 def run_project(case, B):
-    '''Topology.project (least squares): the returned constraint vector solves the normal equations on the supported dofs and is NaN elsewhere.'''
+    '''Topology.project (least squares), also chained the way constraints are usually built (the vector returned by one projection passed as
+    `constrain=` to the next, `exact_boundaries`): prescribed entries are kept bit for bit, the entries determined by a call solve the free normal
+    equations  A_ff u_f = b_f - A_fc u_c  of that call, and NaN stays exactly where there is neither a prescribed value nor support.'''
     from nutils import matrix, mesh, function
     spec = case['spec']
     log = []
@@ -842,41 +844,65 @@ def run_project(case, B):
             x = geom[0]
         basis = topo.basis(spec['btype'], degree=spec['degree'])
         n = len(basis)
+        J = function.J(geom)
+        prev_cons = None
+        eps = numpy.finfo(float).eps
         for oi, op in enumerate(case['ops']):
-            dom = topo if op['where'] == 'domain' else topo.boundary if op['where'] == 'boundary' else topo.boundary['left']
-            fun = {'x': x, 'x2': x * x + 1., 'one': function.Array.cast(1.) + 0 * x, 'zero': 0 * x}[op['fun']]
+            dom = topo if op['where'] == 'domain' else topo.boundary if op['where'] == 'boundary' else topo.boundary[op['where']]
+            fun = {'x': x, 'x2': x * x + 1., 'one': function.Array.cast(1.) + 0 * x, 'zero': 0 * x, 'two': function.Array.cast(2.) + 0 * x}[op['fun']]
             deg = 2 * spec['degree'] + 2
             fired0 = dict(PLAN.fired)
             reached0 = PLAN.reached
             kw = dict(solver=op['solver'])
             if op['atol']:
                 kw['atol'] = op['atol']
+            chained = bool(op.get('chain')) and prev_cons is not None
+            if chained:
+                kw['constrain'] = prev_cons
+            exact = bool(op.get('exact_boundaries')) and op['where'] == 'domain'
+            if exact:
+                kw['exact_boundaries'] = True
+            prev = numpy.array(prev_cons, dtype=float) if chained else numpy.full(n, numpy.nan)
             try:
                 cons = dom.project(fun, onto=basis, geometry=geom, degree=deg, ptype='lsqr', **kw)
                 outcome = 'return'
             except Exception as e:
                 outcome = 'raise:' + type(e).__name__
-                log.append(('project', op['where'], outcome, PLAN.reached - reached0))
+                log.append(('project', op['where'], op['fun'], chained, exact, outcome, PLAN.reached - reached0))
                 if not _is_ok_exc(e):
                     return 'E-unexpected-exception:' + type(e).__name__, f'op {oi}: Topology.project raised {type(e).__name__}: {str(e)[:200]}', log
                 continue
-            log.append(('project', op['where'], outcome, PLAN.reached - reached0))
+            log.append(('project', op['where'], op['fun'], chained, exact, outcome, PLAN.reached - reached0))
             u = numpy.asarray(cons, dtype=float)
-            # independent dense normal equations
-            J = function.J(geom)
-            A, b = dom.integrate([basis[:, numpy.newaxis] * basis * J, basis * fun * J], degree=deg)
-            A = numpy.asarray(A.export('dense') if hasattr(A, 'export') else A)
-            N = (abs(A) > 1e-12).any(axis=1)
-            if numpy.isinf(u).any() or (numpy.isnan(u) != ~N).any():
-                return 'R-droptol-pattern', f'op {oi}: project left NaN at {numpy.flatnonzero(numpy.isnan(u)).tolist()} but the dofs without support are {numpy.flatnonzero(~N).tolist()}', log
-            r = (b - A[:, N] @ u[N])[N]
-            res = float(numpy.linalg.norm(r))
             faulted = PLAN.fired != fired0
-            scale = float(numpy.linalg.norm(A, 2)) * float(numpy.linalg.norm(u[N])) + float(numpy.linalg.norm(b))
-            if op['atol'] and not res <= op['atol'] * (1 + 1e-9) + 64 * numpy.finfo(float).eps * scale * n:
-                return 'R-tolerance-not-met', f'op {oi}: projection returned with residual {res:.3e} of the normal equations > atol {op["atol"]}', log
-            if not op['atol'] and not faulted and not res <= 1e-8 * scale + 1e-300:
-                return 'R-machine-precision', f'op {oi}: projection on an honest back end left residual {res:.3e} (scale {scale:.3e})', log
+            if chained and not numpy.array_equal(numpy.asarray(prev_cons, dtype=float), prev, equal_nan=True):
+                return 'R-constraint-violated', f'op {oi}: project modified the constraint vector it was given', log
+            if numpy.isinf(u).any():
+                return 'R-non-finite', f'op {oi}: project returned infinite entries', log
+            keep = ~numpy.isnan(prev)
+            if not numpy.array_equal(u[keep], prev[keep]):
+                return 'R-constraint-violated', f'op {oi}: prescribed entries {numpy.flatnonzero(keep).tolist()} were {prev[keep].tolist()} and came back as {u[keep].tolist()}', log
+            # the stages of this call: (boundary first if exact_boundaries,) then the domain itself; each certified with independent dense normal equations
+            for sdom, sname in ([(dom.boundary, 'boundary stage')] if exact else []) + [(dom, 'projection')]:
+                A, b = sdom.integrate([basis[:, numpy.newaxis] * basis * J, basis * fun * J], degree=deg)
+                A = numpy.asarray(A.export('dense') if hasattr(A, 'export') else A)
+                N = (abs(A) > 1e-12).any(axis=1)
+                newly = numpy.isnan(prev) & N
+                if numpy.isnan(u[newly]).any():
+                    return 'R-droptol-pattern', f'op {oi} ({sname}): entries {numpy.flatnonzero(newly & numpy.isnan(u)).tolist()} have support and no prescribed value but were left NaN', log
+                known = ~numpy.isnan(prev) | newly
+                v = numpy.where(known, u, 0.)
+                r = (b - A @ v)[newly]
+                res = float(numpy.linalg.norm(r))
+                scale = float(numpy.linalg.norm(A, 2)) * float(numpy.linalg.norm(v)) + float(numpy.linalg.norm(b))
+                if op['atol'] and not res <= op['atol'] * (1 + 1e-9) + 64 * eps * scale * n:
+                    return 'R-tolerance-not-met', f'op {oi} ({sname}): returned with residual {res:.3e} of the free normal equations > atol {op["atol"]}', log
+                if not op['atol'] and not faulted and not res <= 1e-8 * scale + 1e-300:
+                    return 'R-machine-precision', f'op {oi} ({sname}, fun={op["fun"]}, chained={chained}): honest back end, residual of the free normal equations {res:.3e} (scale {scale:.3e})', log
+                prev = numpy.where(newly, u, prev)
+            if (numpy.isnan(u) != numpy.isnan(prev)).any():
+                return 'R-droptol-pattern', f'op {oi}: project left NaN at {numpy.flatnonzero(numpy.isnan(u)).tolist()} but entries without prescribed value and without support are {numpy.flatnonzero(numpy.isnan(prev)).tolist()}', log
+            prev_cons = cons
     return None, None, log
 
 
